@@ -10,9 +10,15 @@ package counter
 
 import (
 	"fmt"
+	"hash/fnv"
 	"os"
+	"path/filepath"
+	"sort"
 	"strings"
 	"testing"
+	"unsafe"
+
+	"golang.org/x/telemetry/internal/telemetry"
 
 	"golang.org/x/telemetry/internal/verifshim/sched"
 	"golang.org/x/telemetry/internal/verifshim/vos"
@@ -125,13 +131,7 @@ func zzvC03Scenario(base string, scn *zzvScn) *sched.Scenario {
 				})
 			}
 			x.OnStep = func(x *sched.Exec) { w.stepOracle(x.LastKind) }
-			x.StateKey = func() uint64 {
-				h := uint64(0)
-				for _, c := range w.ctrs {
-					h = h*1099511628211 ^ uint64(c.state.load())
-				}
-				return h
-			}
+			x.StateKey = func() uint64 { return zzvC03StateKey(w) }
 		},
 		Check: func(x *sched.Exec) ([]string, uint64) {
 			r := x.Scratch.(*zzvC03Run)
@@ -293,15 +293,38 @@ func TestVerifC03(t *testing.T) {
 			continue
 		}
 		_ = si
+		var unpruned2 sched.Stats
 		for _, b := range bounds {
 			sc := zzvC03Scenario(base, &scn)
 			ex := &sched.Explorer{Sc: sc, Bounds: sched.Bounds{Preempt: b}, Deadline: p.Deadline, Shard: p.Shard, NShards: p.NShards}
 			st := ex.Explore()
 			zzvRecord(res, st, zzvSigC03)
+			if b == 2 {
+				unpruned2 = st
+			}
 			if !st.Exhaustive {
 				break
 			}
 		}
+		if !p.Thorough() || p.Expired() {
+			continue
+		}
+		// Thorough: state-key pruning. First the cross-check at bound 2 (same outcomes and the
+		// same violation classes as the unpruned run of this worker's share), then the
+		// exploration without a preemption bound: all interleavings of the scenario.
+		exc := &sched.Explorer{Sc: zzvC03Scenario(base, &scn), Bounds: sched.Bounds{Preempt: 2}, Deadline: p.Deadline, Shard: p.Shard, NShards: p.NShards, Prune: true}
+		stc := exc.Explore()
+		if stc.Exhaustive && unpruned2.Exhaustive {
+			if a, b := zzvOutcomeSet(unpruned2), zzvOutcomeSet(stc); a != b {
+				res.Internal = fmt.Sprintf("prune cross-check failed for %s at bound 2: unpruned %s, pruned %s", scn.name, a, b)
+			}
+			res.Note("prune cross-check %s bound 2: %d executions unpruned, %d pruned (cut %d), same outcomes and violation classes", scn.name, unpruned2.Executions, stc.Executions, exc.Cut)
+		}
+		exu := &sched.Explorer{Sc: zzvC03Scenario(base, &scn), Bounds: sched.Bounds{Preempt: 1000}, Deadline: p.Deadline, Shard: p.Shard, NShards: p.NShards, Prune: true}
+		stu := exu.Explore()
+		stu.Scenario = scn.name
+		zzvRecord(res, stu, zzvSigC03)
+		res.Note("all interleavings of %s (state-key pruning): executions=%d cut=%d complete=%v", scn.name, stu.Executions, exu.Cut, stu.Exhaustive)
 	}
 	res.Write()
 }
@@ -340,4 +363,74 @@ func zzvReplayC03(base, path string) {
 		}
 		return nil
 	})
+}
+
+// zzvC03StateKey hashes every shared location of a C03 execution: the clock, the file
+// object (error, span, current mapping, registration list, mutex), every counter's state
+// word and pointer (as mapping creation index + offset, nil, or dead), and the bytes of
+// every counter file. Thread-local state is covered by the scheduler's per-thread
+// observation histories. Used for counting states and, in the thorough tier, for pruning
+// (cross-checked against unpruned runs).
+func zzvC03StateKey(w *zzvWorld) uint64 {
+	h := fnv.New64a()
+	put := func(v ...any) { fmt.Fprint(h, v...); h.Write([]byte{0}) }
+	put(w.now.UnixNano())
+	idx := map[*Counter]int{}
+	for i, c := range w.ctrs {
+		idx[c] = i + 1
+	}
+	for _, f := range w.procs {
+		put(f.err != nil, f.timeBegin.Unix(), f.timeEnd.Unix(), f.mu.Held())
+		if m := f.current.Load(); m != nil {
+			if m.mapping != nil && len(m.mapping.Data) > 0 {
+				seq, _, dead, _ := vos.MapInfo(uintptr(unsafe.Pointer(&m.mapping.Data[0])))
+				put("cur", seq, dead)
+			} else {
+				put("cur-closed")
+			}
+		} else {
+			put("cur-nil")
+		}
+		for c := f.counters.Load(); c != nil && c != &f.end; c = c.next.Load() {
+			put("reg", idx[c])
+		}
+	}
+	for _, c := range w.ctrs {
+		put(uint64(c.state.load()), c.next.Load() != nil)
+		if c.ptr.count == nil {
+			put("ptr-nil")
+		} else {
+			seq, off, dead, _ := vos.MapInfo(uintptr(unsafe.Pointer(c.ptr.count)))
+			put("ptr", seq, off, dead)
+		}
+	}
+	ents, _ := os.ReadDir(telemetry.Default.LocalDir())
+	for _, e := range ents {
+		data, _ := os.ReadFile(filepath.Join(telemetry.Default.LocalDir(), e.Name()))
+		put(e.Name(), len(data))
+		h.Write(data)
+	}
+	put(vos.DeadCount())
+	return h.Sum64()
+}
+
+// zzvOutcomeSet renders the distinct outcomes and violation classes of an exploration.
+func zzvOutcomeSet(st sched.Stats) string {
+	var outs []string
+	for o := range st.Outcomes {
+		outs = append(outs, fmt.Sprintf("%016x", o))
+	}
+	sort.Strings(outs)
+	sigs := map[string]bool{}
+	for _, f := range st.Violations {
+		for _, m := range f.Messages {
+			sigs[zzvSigC03(f, m)] = true
+		}
+	}
+	var ss []string
+	for s := range sigs {
+		ss = append(ss, s)
+	}
+	sort.Strings(ss)
+	return fmt.Sprint(outs, ss)
 }
